@@ -35,6 +35,7 @@ def setup(ctx):
         "static files are text (StaticFileHandler serves UTF-8 text only); the expected body is the file's bytes on disk",
     ]
     ctx.require("monitor", "streams_compared", 40)
+    ctx.require("monitor", "unsendable_bodies", 60)
     ctx.require("monitor", "l3_streams_compared", 8)
     ctx.require("monitor", "stalled_reader_streams", 10)
     ctx.require("monitor", "at_limit_streams", 8)
@@ -269,6 +270,77 @@ def run_l2(ctx):
                              sample={"level": "L2", **case})
                 finally:
                     close_loop(loop)
+
+
+def run_l2_unsendable(ctx):
+    """A handler hands back a 2x response whose body cannot be put on the wire as it is (text with a lone surrogate - a
+    file name that went through surrogateescape, say), or is bytes-like without being `bytes` (bytearray, memoryview).
+    Whatever the server makes of it, the client never gets a success header followed by something that is NOT the body:
+    either header + the body's bytes, or a refusal without a body."""
+    import re as _re
+
+    from nauyaca.protocol.response import GeminiResponse
+    from nauyaca.server.protocol import GeminiServerProtocol
+
+    from vf import tlsbench
+    from vf.vloop import close_loop, new_loop
+
+    bodies = [("str-lone-surrogate", "caf\udce9 menu\n", ["caf\udce9 menu\n".encode("utf-8", "surrogateescape"), "caf\udce9 menu\n".encode("utf-8", "surrogatepass")]),
+              ("str-lone-surrogate-long", "x" * 20000 + "\ud800" + "y" * 20000, ["x".encode() * 20000 + "\ud800".encode("utf-8", "surrogatepass") + b"y" * 20000]),
+              ("bytearray", bytearray(b"\x00\x01binary body\xff" * 50), [bytes(b"\x00\x01binary body\xff" * 50)]),
+              ("memoryview", memoryview(b"memory view body " * 40), [b"memory view body " * 40]),
+              ("str-subclass", type("S", (str,), {})("subclassed text\n"), [b"subclassed text\n"])]
+    for backend in ("pyopenssl", "stdlib"):
+        for bname, body, wire_forms in bodies:
+            for mode in ("sync", "async"):
+                for st, meta in ((20, "text/gemini"), (20, "application/octet-stream"), (22, "text/plain; charset=utf-8")):
+                    def handler(req, body=body, meta=meta, mode=mode, st=st):
+                        try:
+                            r = GeminiResponse(status=st, meta=meta, body=body)
+                        except Exception:  # noqa: BLE001  (a response object that refuses such a body: the handler fails)
+                            raise
+                        if mode == "sync":
+                            return r
+
+                        async def co():
+                            return r
+
+                        return co()
+
+                    loop = new_loop()
+                    try:
+                        bench = tlsbench.Sandwich(loop, lambda: GeminiServerProtocol(handler), backend=backend)
+                        if not bench.handshake():
+                            ctx.inconclusive_because(f"L2 handshake failed: {bench.error}")
+                            continue
+                        bench.client_send(b"gemini://localhost/x\r\n")
+                        bench.finish()
+                        got = bytes(bench.client_plain)
+                        ctx.count("monitor", "streams_compared")
+                        ctx.count("monitor", "unsendable_bodies")
+                        hdr = f"{st} {meta}\r\n".encode()
+                        case = {"backend": backend, "len": len(body), "btype": bname, "source": "spy-" + mode, "status": st, "meta": meta, "got": got[:80], "got_len": len(got)}
+                        m = _re.match(rb"^([0-9])[0-9] [^\r\n]*\r\n", got)
+                        if not got:
+                            ctx.undecided("unsendable-body:nothing-sent (see C01)")
+                            verdict = "nothing"
+                        elif m and m.group(1) == b"2":
+                            if got.startswith(hdr) and got[len(hdr):] in wire_forms:
+                                verdict = "sent-as-bytes"
+                            else:
+                                verdict = "success-header-with-foreign-body"
+                                ctx.violation(f"altered:backend={backend}:body={bname}:success-header-followed-by-something-else", f"the client got a {st} header followed by {len(got) - m.end()} bytes that are not the body the handler returned", case)
+                        elif m and len(got) == m.end():
+                            verdict = "refused-cleanly"
+                        elif m:
+                            verdict = "refusal-with-trailing-bytes"
+                            ctx.violation(f"altered:backend={backend}:body={bname}:refusal-followed-by-bytes", "a non-success header followed by further bytes", case)
+                        else:
+                            verdict = "no-header"
+                            ctx.violation(f"altered:backend={backend}:body={bname}:no-header", "what the client got does not start with a response header", case)
+                        ctx.case(("L2-unsendable", backend, bname, mode, st, verdict), True, sample={"level": "L2", **case, "verdict": verdict})
+                    finally:
+                        close_loop(loop)
 
 
 # --------------------------------------------------------------------------- L3
@@ -601,6 +673,8 @@ def run_l2_stalled(ctx):
 
 def run(ctx):
     run_l2(ctx)
+    if ctx.mine(3) or ctx.nshards == 1:
+        run_l2_unsendable(ctx)
     run_l2_stalled(ctx)
     if ctx.shard in (0, 1) or ctx.nshards == 1:
         run_l3(ctx)
